@@ -98,14 +98,13 @@ func (b *fakeBackend) Put(ctx context.Context, kind cache.EntryKind, hash string
 }
 
 type fakeStream struct {
-	b      *fakeBackend
-	ctx    context.Context
-	hash   string
-	inner  io.ReadCloser
-	r      *bytes.Reader
-	end    string
-	piece  int
-	closed bool
+	b     *fakeBackend
+	ctx   context.Context
+	hash  string
+	inner io.ReadCloser
+	r     *bytes.Reader
+	end   string
+	piece int
 }
 
 func (s *fakeStream) Read(p []byte) (int, error) {
